@@ -59,7 +59,9 @@ def run_batch(ctx, ntasks, store, fine, faults, real_joblib=False):
             if s is not None:
                 s.point("obj:enter")
             if env["faults"]:
-                c = env["ctx"].choose("fault", 2, 1, "objective")
+                # 'free': failures cost no deviation (all patterns); otherwise every failure is one deviation
+                c = env["ctx"].choose("fault", 2, 0 if env["faults"] == "free" else 1, "objective")
+                env["calls"].append((id(individual), tuple(individual.vector), "fail" if c == 1 else "ok"))
                 if c == 1:
                     raise TimeoutError("injected")
 
@@ -76,6 +78,7 @@ def run_batch(ctx, ntasks, store, fine, faults, real_joblib=False):
     problem, alg = env["problem"], env["alg"]
     env["ctx"] = ctx
     env["faults"] = faults
+    env["calls"] = []
     problem.h_log = []
     problem.failed = []
     problem.individuals = []
@@ -112,7 +115,7 @@ def run_batch(ctx, ntasks, store, fine, faults, real_joblib=False):
                 env["holder"] = None
         sch = holder.get("sched")
         info = {"trace": list(sch.trace) if sch else [], "deadlock": sch.deadlock if sch else None,
-                "conflicts": holder["hooks"].lock_conflicts, "points": sch.points if sch else 0}
+                "conflicts": holder["hooks"].lock_conflicts, "points": sch.points if sch else 0, "calls": list(env["calls"])}
     rows = None
     if store:
         problem.data_store = DummyDataStore()
@@ -150,18 +153,38 @@ def judge(problem, batch, exc, rows, info, store, faults, desc):
                 bad("C07:costs-differ-from-serial", "design %d costs %r, serial evaluation gives %r" % (k, ind.costs, costs))
             if [float(x) for x in ind.costs_signed[:-1]] != [float(x) for x in signed[:-1]] or ind.costs_signed[-1] is not True:
                 bad("C07:signed-costs-differ-from-serial", "design %d signed %r, serial %r" % (k, ind.costs_signed, signed))
-        else:
-            # with transient failures: the design ends evaluated with costs of its final vector, or the batch raised
-            if ind.state == Individual.State.EVALUATED:
-                costs, signed = expected_fields(ind.vector)
-                if list(ind.costs) != costs:
-                    bad("C07:faults:costs-not-of-final-vector", "design %d vector %r costs %r" % (k, ind.vector, ind.costs))
-                if n < 1 or n > 5:
-                    bad("C07:faults:attempts", "design %d attempted %d times" % (k, n))
     if faults:
-        n_fail = sum(len(v) for v in calls.values()) - sum(1 for i in batch if i.state == Individual.State.EVALUATED)
-        if exc is None and len(problem.failed) != n_fail:
+        # reference retry protocol, per design (designs run concurrently, so only per-design order is defined)
+        five = False
+        n_fail = 0
+        for k, ind in enumerate(batch):
+            mine = [c for c in info.get("calls", []) if c[0] == id(ind)]
+            outs = [c[2] for c in mine]
+            n_fail += outs.count("fail")
+            if len(mine) > 5:
+                bad("C07:faults:more-than-five-attempts", "design %d attempted %d times (%r)" % (k, len(mine), outs))
+            if "ok" in outs[:-1]:
+                bad("C07:faults:call-after-success", "design %d outcomes %r" % (k, outs))
+            if outs and outs[-1] == "ok":
+                costs, signed = expected_fields(mine[-1][1])
+                if ind.state != Individual.State.EVALUATED or tuple(ind.vector) != mine[-1][1] or list(ind.costs) != costs:
+                    bad("C07:faults:result-not-of-final-vector", "design %d: state %r vector %r costs %r after outcomes %r" % (k, ind.state, ind.vector, ind.costs, outs))
+            else:
+                if ind.state == Individual.State.EVALUATED:
+                    bad("C07:faults:failed-design-evaluated", "design %d outcomes %r but marked evaluated" % (k, outs))
+                if len(outs) >= 5:
+                    five = True
+                elif exc is None:
+                    bad("C07:faults:no-retry", "design %d gave up after %d attempts (%r) and nothing was raised" % (k, len(outs), outs))
+        if five and not isinstance(exc, RuntimeError):
+            bad("C07:faults:five-failures-no-runtimeerror", "a design failed five times but the caller saw %r" % (exc,))
+        if exc is not None and not five:
+            bad("C07:faults:exception-without-five-failures:%s" % type(exc).__name__,
+                "caller saw %r although no design failed five times: %r" % (exc, [c[2] for c in info.get("calls", [])]))
+        if len(problem.failed) != n_fail:
             bad("C07:faults:failed-list", "%d transient failures, %d entries in problem.failed" % (n_fail, len(problem.failed)))
+        elif sorted(tuple(x.vector) for x in problem.failed) != sorted(c[1] for c in info.get("calls", []) if c[2] == "fail"):
+            bad("C07:faults:failed-vectors", "problem.failed vectors differ from the vectors that failed")
     if store and rows is not None:
         byid = {}
         for rid, js in rows:
